@@ -155,6 +155,7 @@ Proof.
   destruct (top_phase_spec b Hb true lsh res_end r2 c3 Hl ltac:(discriminate) Hc3b) as [T1 T2].
   cbv beta in T2.
   set (out := fst (top_phase 64 true b lsh res_end (r2, c3))) in *.
+  clear Hc0 Hc2 Hc3b. (* magnitude bounds are no longer needed: they slow lia down *)
   split; [rewrite T1, M2; exact Z1|].
   intros i Hi. rewrite T2, M2, Z1.
   destruct (Nat.ltb_spec i res_end) as [Htp|Htp].
